@@ -143,6 +143,39 @@ def check(prog, run):
         run.violation("add-contract", "Enum.add existing name", "adding an existing name: %s, members afterwards %r (expected KeyError and no change)"
                       % ("accepted" if p.returned else p.raised.describe(), fin), file, fadd.node.lineno, fadd.qualname)
 
+    # ... whatever value the existing name carries (a value that is false in a boolean context is still a value), and
+    # removal works for such names too
+    for label, mkv in (("0", lambda: 0), ("''", lambda: ""), ("None", lambda: None), ("False", lambda: False), ("[]", lambda: []),
+                       ("{}", lambda: {}), ("0.0", lambda: 0.0)):
+        def t_add_dup_falsy(mkv=mkv):
+            e = I.instantiate(ecls, [{"first": 1, "name": mkv(), "last": 2}], {}, None, _F())
+            try:
+                I.call_function(fadd, [e, "name", 9], {}, None, _F())
+            finally:
+                I.event("final", value=e.members.get("name"), keys=list(e.members))
+            return e
+        p = ev(t_add_dup_falsy, "add dup falsy")
+        fin = [x for x in p.events if x["kind"] == "final"][-1]
+        ec = p.raised.exc_class() if not p.returned else None
+        c = "Enum.add existing name whose value is %s" % label
+        if ec is I.bclasses["KeyError"] and fin["value"] != 9:
+            run.ok("add-contract", c)
+        else:
+            run.violation("add-contract", c, "adding an existing name whose value is %s: %s, value afterwards %r (expected KeyError and no change)"
+                          % (label, "accepted" if p.returned else p.raised.describe(), fin["value"]), file, fadd.node.lineno, fadd.qualname)
+
+        def t_rem_falsy(mkv=mkv):
+            e = I.instantiate(ecls, [{"first": 1, "name": mkv(), "last": 2}], {}, None, _F())
+            I.call_function(frem, [e, "name"], {}, None, _F())
+            return I.get_attr(e, "keys", None, _F())
+        p = ev(t_rem_falsy, "remove falsy")
+        c = "Enum.remove name whose value is %s" % label
+        if p.returned and p.value == ["first", "last"]:
+            run.ok("remove-contract", c)
+        else:
+            run.violation("remove-contract", c, "removing a name whose value is %s: %r" % (label, p.value if p.returned else p.raised.describe()),
+                          file, frem.node.lineno, frem.qualname)
+
     def t_rem():
         e = fresh()
         I.call_function(frem, [e, "b"], {}, None, _F())
@@ -199,3 +232,84 @@ def check(prog, run):
     run.count("value_kinds", len(kinds))
     run.count("methods", 5)
     run.floor("value kinds", len(kinds), 10)
+
+
+def thorough(prog, run):
+    """every history of up to three add / remove operations (4 names x 3 values, falsy 0 included) on the enumeration
+    {'a': 1, 'b': 2, 'c': 1}, evaluated by constant propagation and compared step by step with an ordinary dictionary:
+    the refusals (KeyError, state unchanged), the names in order, the values, and the reverse lookup of 0..3.  A bounded
+    family -- longer histories are not decided."""
+    import itertools
+    I = prog.I
+    ecls = prog.cls(ENUM, "Enum")
+    file = prog.rel(ecls.module)
+    fadd = ecls.lookup("add")[0]
+    frem = ecls.lookup("remove")[0]
+    names = ["a", "b", "c", "d"]
+    ops = [("add", n, v) for n in names for v in (0, 1, 2)] + [("remove", n, None) for n in names]
+    base = {"a": 1, "b": 2, "c": 1}
+    nhist = 0
+    bad = {}
+    for ln in (1, 2, 3):
+        for hist in itertools.product(ops, repeat=ln):
+            nhist += 1
+            # the dictionary's own history
+            model = dict(base)
+            want = []
+            for op, n, v in hist:
+                if op == "add":
+                    if n in model:
+                        want.append("KeyError")
+                    else:
+                        model[n] = v
+                        want.append("ok")
+                else:
+                    if n not in model:
+                        want.append("KeyError")
+                    else:
+                        del model[n]
+                        want.append("ok")
+            rev = {x: next((k for k, v in model.items() if v == x), "") for x in (0, 1, 2, 3)}
+
+            def th(hist=hist):
+                e = I.instantiate(ecls, [dict(base)], {}, None, _F())
+                got = []
+                for op, n, v in hist:
+                    try:
+                        if op == "add":
+                            I.call_function(fadd, [e, n, v], {}, None, _F())
+                        else:
+                            I.call_function(frem, [e, n], {}, None, _F())
+                        got.append("ok")
+                    except PyRaise as ex:
+                        c = ex.exc_class()
+                        got.append(c.name if c is not None else "?")
+                keys = I.get_attr(e, "keys", None, _F())
+                vals = {k: I.get_attr(e, k, None, _F()) for k in keys} if isinstance(keys, list) else None
+                return got, keys, vals, {x: I.get_item(e, x, None, _F()) for x in (0, 1, 2, 3)}
+            ps = I.explore(th, max_paths=4)
+            p = ps[0]
+            if len(ps) != 1 or not p.returned:
+                why = "the evaluation forks / raises %s" % (p.raised.describe() if not p.returned else "")
+            else:
+                got, keys, vals, grev = p.value
+                why = None
+                if got != want:
+                    why = "outcomes %r, a dictionary gives %r" % (got, want)
+                elif keys != list(model):
+                    why = "names %r, a dictionary has %r" % (keys, list(model))
+                elif vals != model:
+                    why = "values %r, a dictionary has %r" % (vals, model)
+                elif grev != rev:
+                    why = "reverse lookups %r, the dictionary's first matches are %r" % (grev, rev)
+            if why:
+                k = "history of %d operations" % ln
+                if k not in bad:
+                    bad[k] = (hist, why)
+    for k, (hist, why) in bad.items():
+        run.violation("history-agrees-with-dictionary", k,
+                      "after %s on Enum(%r): %s" % ("; ".join("%s(%r%s)" % (o, n, "" if v is None else ", %r" % v) for o, n, v in hist), base, why),
+                      file, ecls.node.lineno, ecls.qualname)
+    if not bad:
+        run.ok("history-agrees-with-dictionary", "all %d histories of up to 3 operations" % nhist, {"histories": nhist})
+    run.count("histories", nhist)
